@@ -1,6 +1,7 @@
 import O2P.Drv.Common
 import O2P.Model.Signed
 import O2P.Model.Sha256
+import O2P.Model.CsrfLoad
 /-!
   Driver operations for the signed-cookie model (C02, C09): the model runs on REAL bytes with
   `mac := O2P.Sha.hmac`, `sha := O2P.Sha.sha256`.
@@ -72,9 +73,58 @@ def opValidate : Op
     if r1 = r2 then pure (showValidate r1) else pure "clock-edge"
   | _ => none
 
+/-- `csrfpick seed name expireNs beforeNs afterNs names values decodable`: `LoadCSRFCookie` on a request
+    carrying the cookies `names[i]=values[i]` (header order).  `decodable` lists the validated payloads
+    (as `Validate` returns them) that the AES-CFB + msgpack step decodes (shipped by the harness from its
+    own decoder).  Answer: the index of the cookie whose payload is returned, or `none`. -/
+def opCsrfPick : Op
+  | [seed, name, expire, before, after, ns, vs, ok] => do
+    let seed ← str seed
+    let name ← str name
+    let expire ← Proto.int expire
+    let ns ← strs ns
+    let vs ← strs vs
+    let ok ← strs ok
+    let cookies := ns.zip vs
+    -- tag each cookie's payload with its index through the `state` field
+    let run (now : Int) : Option Nat :=
+      let idx := (List.range cookies.length).zip cookies
+      idx.findSome? (fun p =>
+        if p.2.1 = name then
+          match validate Sha.hmac name p.2.2 seed expire now with
+          | some (bytes, _) => if ok.contains bytes then some p.1 else none
+          | none => none
+        else none)
+    -- the model definition, for the same data (decode := membership in `ok`, payload echoed as `state`)
+    let viaModel (now : Int) : Option Str :=
+      (ComposeCsrf.csrfLoad Sha.hmac (fun bytes => if ok.contains bytes then some { state := bytes, nonce := [], verifier := [] } else none)
+        seed expire now cookies name).map (·.state)
+    let tb ← Proto.int before
+    let ta ← Proto.int after
+    let r1 := run tb
+    let r2 := run ta
+    let m1 := viaModel tb
+    if r1 ≠ r2 then pure "clock-edge"
+    else
+      -- cross-check: the indexed scan and `csrfLoad` pick the same payload
+      let agree := match r1, m1 with
+        | none, none => true
+        | some i, some st =>
+          (match cookies[i]? with
+           | some c => (match validate Sha.hmac name c.2 seed expire tb with
+                        | some (bytes, _) => bytes == st
+                        | none => false)
+           | none => false)
+        | _, _ => false
+      if !agree then pure "MODEL-SELF-MISMATCH"
+      else match r1 with
+        | none => pure "none"
+        | some i => pure (toString i)
+  | _ => none
+
 def signedOps : List (String × Op) :=
   [("b64enc", opB64Enc), ("b64dec", opB64Dec), ("atoi", opAtoi), ("secretbytes", opSecretBytes),
    ("hashnonce", opHashNonce), ("checknonce", opCheckNonce), ("codechallenge", opCodeChallenge),
-   ("signed", opSigned), ("validate", opValidate)]
+   ("signed", opSigned), ("validate", opValidate), ("csrfpick", opCsrfPick)]
 
 end O2P.Drv
